@@ -158,7 +158,11 @@ class PrinterBase:
         assert expr.ref is not None
 
         if self.need_ref.get(expr.ref):
-            assert expr.ref not in self.defined_refs, expr.ref
+            if expr.ref in self.defined_refs:
+                # an equal constant that shares the reference name was
+                # defined while printing the operands
+                assert expr.kind == "constant", expr.ref
+                return expr.ref
             self.assignments.append(self.make_assignment(self.get_type(expr), expr.ref, result))
             self.defined_refs.add(expr.ref)
 
